@@ -32,6 +32,15 @@ CHECKS = {
  "C12": ("stateless exhaustive program-space exploration with events read after the evaluation, plus controlled-scheduler enumeration of consumer timings",
          "Every program <=6 (7) nodes over an alphabet with unary/binary/ternary registered operators x 16 subsets x {ReportEvent, Debug} x every binding incl. failures x {Eval, TryEval}: results and Dump equal the event-free compilation; OP_EXEC events of registered operators equal the harness's call log, those of builtins equal R1's application sequence on the Dump tree, every event is truthful, LOOP positions strictly increase, no two events share slice memory; consumer thread under the scheduler takes events at every callback point (preemption bound 4 / 8): contents never depend on timing and never change after delivery.",
          "IsFastOp and the exact set of LOOP events are not asserted; consumer timings below callback granularity are represented by read-at-end (exhaustive) and a scribbling synchronous consumer (auxiliary).", "4 C12"),
+ "C09": ("exhaustive enumeration of parameterised program families around every capacity boundary, executed on the real compiler/evaluator against closed-form / R1 results",
+         "Every operand count 118..131 (+far values) for each n-ary operator kind, flat and as nested and/or groups that flatten to that count; every node count in 16370..16395 and 32755..32775 in three exact-size shapes incl. deep chains; every CORE/RICH tree <=4 (5) nodes after 6..17 pending operands at two nesting levels; all x 16 subsets x {events off, ReportEvent, Debug} x Eval/TryEval: Compile errs or the value is right; within the limits it must be the value; above them it must be rejected.",
+         "Node-count families use a single variable leaf; event-mode size computed from the event-free DumpTable.", "4 C09"),
+ "C10": ("stateless exhaustive program-space exploration with call counters in stateful registered operators and an optimizer-relation checker on the parsed Dump tree",
+         "Every program <=6 (7) nodes over constants, an ill-typed constant, variables, builtins, declared-stateless and undeclared stateful registered operators (names sorting before/between/after the declared ones) x 16 subsets x 3 evaluations per binding: undeclared operators never run during Compile, Compile never fails, the optimised tree is reachable from the source by the permitted rewrites only, each evaluation equals R1 of that tree with the operators' current ordinals and the ordinals agree afterwards.",
+         "Small-scope hypothesis; the permitted-rewrite relation is the statement's two folding rules plus and/or splicing/permutation when those options are on.", "4 C10"),
+ "C11": ("explicit-state BFS over registration histories (real GetOrRegisterKey as transition function, canonical key-map states) plus exhaustive evaluation under every reached layout through every context constructor",
+         "All injective pre-populations of <=3 names over 9 boundary keys, all registration orders of 4 names (BFS to fixpoint), scaled families 1..n (+hole) for n up to 70 and around 128/256 (thorough: every n<=300 and 4096/32766): returned key = stored key, injective, no reassignment; every complete layout x undefined-mode off/on evaluates the positional expression correctly through NewCtxFromVars, both fetcher constructors and package-level Eval with ExtendConf and unrelated extra bindings; RegVarAndOp under 200 map orders; every convertible Go type under 7 key positions.",
+         "Keys drawn from a boundary alphabet of the int16 range.", "4 C11"),
 }
 
 NOT_YET = {}
